@@ -5,7 +5,8 @@ results follow from LOADER AGREEMENT per format pair.
 
 proof:           Prop_C13.v — the four date formats agree (from C12); classic crop reader = YAML reader o converter
                  (CropParamModel, character level, any number type) with the known differences as hypotheses;
-                 fixed-width soil reader = CSV soil reader on the two renderings of an abstract profile (SoilModel)
+                 fixed-width soil reader = CSV soil reader on the two renderings of an abstract profile (SoilModel);
+                 text rotation reader = CSV rotation reader on the two renderings of an abstract rotation (RotaReaderModel)
 correspondence:  the REAL ReadCropParamClassic / ReadCropParamYml / ConvertCropParamClassicToYml vs the models on the
                  bytes of every shipped crop file (classic and .yml) and of generated variants, every field of the
                  loaded state / record bit for bit
@@ -33,14 +34,16 @@ ASSUMPTIONS = ["decimal text of <= 15 significant digits is one correctly rounde
 LEVEL_TEXT = ("Machine-checked proof (Coq) of loader agreement for the date formats (from C12), for the crop "
               "parameter readers (classic fixed-column reader = YAML reader o shipped converter, for every "
               "well-formed classic file, any prior state, with the differences of the readers as explicit "
-              "hypotheses) and for the soil profile readers (fixed-width LoadSoil = LoadSoilCSV on the two renderings "
-              "of every abstract profile whose texts fit their columns); the crop and soil models are run against "
-              "the real readers/converter on every shipped file and on generated variants each run (bit-exact); "
+              "hypotheses), for the soil profile readers (fixed-width LoadSoil = LoadSoilCSV on the two renderings "
+              "of every abstract profile whose texts fit their columns) and for the crop rotation readers (text tokens "
+              "= CSV cells with empty cells kept, for every renderable rotation, date format and field); the crop, soil "
+              "and rotation models are run against the real readers/converter (the rotation reader through the arrays "
+              "the real Input leaves) on shipped files and on generated variants each run (bit-exact); "
               "every clause of the property is evaluated on the real binary by paired whole runs compared as bytes.")
-LEVEL_NOTE = ("partial proof: dates, crop parameter readers and soil readers are proved; the rotation, measurement "
-              "and weather readers are NOT modelled here — these clauses are covered by the paired-run oracle only "
-              "(generated rotations / measurement sets / weather series each run; the weather loaders are modelled "
-              "under C04). Trusted: Coq kernel/vm_compute, YAML codecs, python renderers (the soil renderings are "
+LEVEL_NOTE = ("partial proof: dates, crop parameter readers, soil readers and rotation readers (runs without automatic "
+              "management) are proved; the measurement and weather readers are NOT modelled here — these clauses are "
+              "covered by the paired-run oracle and the comparison of the state after Input only (generated "
+              "measurement sets / weather series each run; the weather loaders are modelled under C04). Trusted: Coq kernel/vm_compute, YAML codecs, python renderers (the soil renderings are "
               "checked against the Coq renderers), harness/driver. The refutation witness C13_bbch_difference_refuted "
               "evaluates primitive floats; the other theorems are axiom-free.")
 TECHNIQUE = "Coq proof (character-level reader models, loader agreement) + bit-exact loaded-state correspondence + paired whole runs"
@@ -223,7 +226,7 @@ def correspond(ctx):
     c.dist["generated_variants_rejected_by_converter"] = conv_failed
     c.samples = ["%s %s" % (p[0], p[1]) for p in plan[:4] + plan[-3:]]
     c.notes.append("compared per case: every field of the crop state (369 floats, 25+ integers) or of the converted record, bit for bit")
-    c.notes.append("NOT modelled (paired runs only): rotation, measurement and weather readers")
+    c.notes.append("NOT modelled (paired runs only): measurement and weather readers")
     return c
 
 
@@ -357,9 +360,9 @@ def _robs(o):
     bad = []
     if crops[n] != "SM" or any(crops[n + 1:]):
         bad.append("entry behind the last")
-    if o["ernte2"][:n] != o["ernte"][:n] or o["saat1"][n] != o["saat2"][n] or o["beginn"] != o["ernte"][0] or any(o["saat1"][:n]):
+    if o["ernte2"][:n] != o["ernte"][:n] or o["saat1"] != o["saat2"] or o["beginn"] != o["ernte"][0] or any(o["saat1"][n + 1:]):
         bad.append("ERNTE2/SAAT2/BEGINN are not the copies the model assumes")
-    z = o["saat"][:n] + o["ernte"][:n] + [o["itag"], o["saat1"][n]]
+    z = o["saat"][:n] + o["ernte"][:n] + [o["itag"]] + o["saat1"][:n + 1]
     f = o["odu"][:n] + o["jn"][:n] + o["ertr"][:n]
     term = "(ROk [%s] [%s] [%s]%%Z [%s])" % ("; ".join('"%s"' % x for x in crops[:n]), "; ".join('"%s"' % x for x in o["variety"][:n]),
                                              "; ".join("(%d)" % x for x in z), "; ".join(CC.fl(x) for x in f))
@@ -377,7 +380,7 @@ def _rota_name(pos):
             66661: "python txt rendering differs from render_rot_txt", 66662: "python csv rendering differs from render_rot_csv",
             99997: "list length", 99998: "int list length", 99999: "float list length"}.get(
         pos, "crop[%d]" % (pos - 20000) if 20000 <= pos < 30000 else "variety[%d]" % (pos - 30000) if pos >= 30000 else
-        "int#%d (saat.., ernte.., ITAG, SAAT1 behind the last)" % (pos - 10000) if pos >= 10000 else "float#%d (odu.., jn.., ertr..)" % pos)
+        "int#%d (saat.., ernte.., ITAG, SAAT1[0..n])" % (pos - 10000) if pos >= 10000 else "float#%d (odu.., jn.., ertr..)" % pos)
 
 
 def rota_correspond(ctx, c):
@@ -392,19 +395,25 @@ def rota_correspond(ctx, c):
         fmt = rnd.choice(F.DATEFMTS)
         sep = rnd.choice(["", "", "."])
         bad = None
-        if k % 5 == 3:        # malformed: dates not increasing / a cell that is no number / an unknown field / a blank line inside
-            bad = rnd.choice(["order", "number", "field", "blank"])
+        if k % 5 == 3:        # malformed: dates not increasing / a cell that is no number / a blank line inside
+            bad = rnd.choice(["order", "number", "blank"])    # (an unknown field ends in a Fatal of another reader of Input: not a rotation observation)
             if bad == "order":
                 r = list(P.rot[-1]); r[2] = P.rot[-2][2]; P.rot[-1] = tuple(r)
             elif bad == "number":
                 r = list(P.rot[1]); r[3] = "0x0"; P.rot[1] = tuple(r)
+        # blank lines: behind a row of the field (ends the block, reading goes on) / where the outer loop reads (the text
+        # reader stops, the CSV reader goes on)
+        blank_at = rnd.choice([[2], [1], [3, 3], [2, 4]])
         for kind in ("txt", "csv"):
             nm = "ro%d%s" % (k, kind)
             F.write_project(env, nm, P, datefmt=fmt, rot=kind, sep=sep)
             path = os.path.join(env.ex, "project", nm, "crop_%s.%s" % (nm, kind))
             data = open(path, "rb").read()
             if bad == "blank":
-                ls = data.split(b"\n"); ls.insert(2, b""); data = b"\n".join(ls); open(path, "wb").write(data)
+                ls = data.split(b"\n")
+                for at in blank_at:
+                    ls.insert(at, b"")
+                data = b"\n".join(ls); open(path, "wb").write(data)
             pkt = "NOFIELD" if bad == "field" else P.field
             if bad == "field":
                 F_ = os.path.join(env.ex, "project", nm, "poly_%s.txt" % nm)
